@@ -648,7 +648,21 @@ func (w *afWorld) step(st *afStep) M {
 	case strings.HasPrefix(strings.TrimSpace(bs), "{"):
 		kind = "json"
 	}
+	leaks := []string{}
+	for _, mk := range []string{"access_token", "refresh_token", "\"email\"", "\"groups\"", "expires_in"} {
+		if strings.Contains(bs, mk) {
+			leaks = append(leaks, mk)
+		}
+	}
+	out["bodyMentions"] = leaks // anywhere in the body, not only at its head
 	out["bodyKind"] = kind
+	// the type the client will act on: the declared one, or what net/http's sniffing makes of an undeclared body
+	ct := res.Header.Get("Content-Type")
+	eff := ct
+	if eff == "" && len(rb) > 0 {
+		eff = http.DetectContentType(rb)
+	}
+	out["contentType"], out["effectiveType"] = ct, eff
 	if strings.HasPrefix(strings.TrimSpace(bs), "<") || kind == "sign-in-page" || kind == "sign-out-page" || kind == "error-page" {
 		s, _ := htmlStructure(bs)
 		out["htmlStructure"] = s
